@@ -296,7 +296,7 @@ package bls12377
 //@ modifies p
 //@ end
 
-// Straus-Shamir joint multiplication: both scalars are reduced modulo r by Element.SetBigInt (assumed contract) and
+// Straus-Shamir joint multiplication: both scalars are reduced modulo r by Element.SetBigInt (contract proved under C08) and
 // the result is the combination with the reduced scalars, for all integers s1, s2 (any sign, any length).
 // a1, a2, s1, s2 are never written (frame clause), so aliasing among them is the case of equal values.
 //@ func G1Jac.JointScalarMultiplication
